@@ -147,7 +147,10 @@ func checkC16(e *Engine, r *Report) {
 			vc := vcs[0].(*ssa.Call)
 			a := vc.Call.Args
 			// address derives from AccAddressFromBech32(m.Account)
-			as := sliceFrom(a[0])
+			helperSlice := func(v ssa.Value) *Slice {
+				return backSlice(v, SliceOpts{ThroughCallArgs: alwaysThrough, IntoCallees: privHelper(pkgVauthTypes), Depth: 2})
+			}
+			as := helperSlice(a[0])
 			var accCall *ssa.Call
 			for _, c := range as.Calls() {
 				if isCallTo(c, CallSpec{pkgSdkTypes, "", "AccAddressFromBech32"}) && hasFieldLoad(sliceFrom(c.Call.Args[0]), tn, "Account") && sliceFrom(c.Call.Args[0]).HasValue(recv) {
@@ -155,7 +158,7 @@ func checkC16(e *Engine, r *Report) {
 				}
 			}
 			okAddr := accCall != nil && as.HasCall(CallSpec{GETH + "/common", "", "BytesToAddress"})
-			ss := sliceFrom(a[1])
+			ss := helperSlice(a[1])
 			okSig := hasFieldLoad(ss, tn, "Signature") && ss.HasCall(CallSpec{"encoding/hex", "", "DecodeString"})
 			mg, isG := resolveLocal(a[2]).(*ssa.Const)
 			okMsg := isG && mg.Value != nil
@@ -276,7 +279,8 @@ func checkC16(e *Engine, r *Report) {
 		dec := e.Fn(pkgCosmoLane, "CLVestingMessagesAuthorizationDecorator.AnteHandle")
 		msi := e.Iface(pkgVesting, "MsgServer")
 		handled := map[string]bool{}
-		allInstrs(dec, false, func(_ *ssa.Function, _ *ssa.BasicBlock, i ssa.Instruction) {
+		decReg := e.privateRegion(dec) // the type dispatch may live in a single-site private helper
+		decReg.AllInstrs(func(i ssa.Instruction) {
 			if ta, ok := i.(*ssa.TypeAssert); ok {
 				handled[namedTypePath(ta.AssertedType)] = true
 			}
@@ -300,7 +304,7 @@ func checkC16(e *Engine, r *Report) {
 			return
 		}
 		hc := has[0].(*ssa.Call)
-		acc := sliceFrom(hc.Call.Args[len(hc.Call.Args)-1])
+		acc := backSlice(hc.Call.Args[len(hc.Call.Args)-1], SliceOpts{ThroughCallArgs: alwaysThrough, IntoCallees: func(f *ssa.Function) bool { return decReg.in[f] }, Depth: 2})
 		r.Check(hasFieldLoad(acc, "", "ToAddress") && !hasFieldLoad(acc, "", "FromAddress"), "993c › proof looked up for ToAddress", e.Pos(hc.Pos()), "HasProof(msg.ToAddress)", "the proof is looked up for an address other than the account that becomes a vesting account")
 		// from each vesting arm (block after successful type assertion) the loop header / next() is reachable only via the true edge of HasProof
 		gHas := boolCallGuards(dec, true, func(c *ssa.Call) bool { return c == hc })
@@ -317,6 +321,62 @@ func checkC16(e *Engine, r *Report) {
 				}
 				if ta, isTA := ex.Tuple.(*ssa.TypeAssert); isTA && strings.HasPrefix(namedTypePath(ta.AssertedType), pkgVesting+".") {
 					starts = append(starts, i.Block().Succs[0])
+				}
+			}
+			// a helper `target, isVesting := h(msg)`: if every return of h that follows a successful vesting-type assertion reports
+			// true, the true edge of `isVesting` in the decorator is where a vesting message continues
+			for _, h := range decReg.Fns {
+				if h == dec {
+					continue
+				}
+				site, _ := decReg.site[h].(*ssa.Call)
+				if site == nil || site.Parent() != dec {
+					continue
+				}
+				res := h.Signature.Results()
+				for k := 0; k < res.Len(); k++ {
+					if b, isB := res.At(k).Type().Underlying().(*types.Basic); !isB || b.Kind() != types.Bool {
+						continue
+					}
+					var arms []*ssa.BasicBlock
+					for _, i := range ifs(h) {
+						ex, ok := i.Cond.(*ssa.Extract)
+						if !ok || ex.Index != 1 {
+							continue
+						}
+						if ta, isTA := ex.Tuple.(*ssa.TypeAssert); isTA && strings.HasPrefix(namedTypePath(ta.AssertedType), pkgVesting+".") {
+							arms = append(arms, i.Block().Succs[0])
+						}
+					}
+					okSum := len(arms) > 0
+					for _, arm := range arms {
+						for b := range reachable(h, arm, nil) {
+							if len(b.Instrs) == 0 {
+								continue
+							}
+							if ret, isRet := b.Instrs[len(b.Instrs)-1].(*ssa.Return); isRet {
+								if v, isK := constBool(ret.Results[k]); !isK || !v {
+									okSum = false
+								}
+							}
+						}
+					}
+					if !okSum {
+						continue
+					}
+					for _, i := range ifs(dec) {
+						cond, neg := i.Cond, false
+						if u, isU := cond.(*ssa.UnOp); isU && u.Op == token.NOT {
+							cond, neg = u.X, true
+						}
+						if ex, ok := cond.(*ssa.Extract); ok && ex.Tuple == ssa.Value(site) && ex.Index == k {
+							if neg {
+								starts = append(starts, i.Block().Succs[1])
+							} else {
+								starts = append(starts, i.Block().Succs[0])
+							}
+						}
+					}
 				}
 			}
 			if len(starts) == 0 {
